@@ -25,14 +25,21 @@ ASSUMPTIONS = [
     "the receiving interface's receive_frame is a stub that (under solver-chosen flags) sends a reply on the same link "
     "before returning and returns a solver-chosen accept/reject - this is what a request/reply exchange does",
     "sizes >= 0, bandwidth > 0, all finite",
+    "like the real Frame (size = length of its serialisation) a FakeFrame grows by a solver-chosen amount once an "
+    "interface stamps received_timestamp on it; the receiver stubs stamp before deciding, as the real interfaces do",
     "f-strings of symbolic values (frame size in Link.transmit_frame's debug message) are rendered as a placeholder: in "
     "the functions encoded here formatted text only feeds logging",
 ]
 
 
 class FakeFrame:
-    def __init__(self, size):
-        self.size_Mbits = size
+    """size_Mbits mirrors the real Frame: its size is the length of its serialisation, which GROWS by a fixed amount
+    once an interface stamps received_timestamp on it (the real NICs stamp before deciding whether to accept)."""
+
+    def __init__(self, size, stamp_extra=0):
+        self._size = size
+        self._extra = stamp_extra
+        self.received_timestamp = None
         self.tcp = None
         self.udp = None
         self.icmp = object()
@@ -40,11 +47,16 @@ class FakeFrame:
         self.payload = None
         self.sent_timestamp = None
 
+    @property
+    def size_Mbits(self):
+        return self._size + (self._extra if self.received_timestamp is not None else 0)
+
     def set_sent_timestamp(self):
         pass
 
     def set_received_timestamp(self):
-        pass
+        if self.received_timestamp is None:
+            self.received_timestamp = "stamped"
 
 
 def _two_hosts():
@@ -68,23 +80,28 @@ def link_nested(
     n1: bool, n2: bool, n3: bool,
     acc1: bool, acc2: bool, acc3: bool, acc4: bool,
     tick_between: bool,
+    ex: int,
 ):
     """Two top-level sends A->B; during delivery of a frame the receiver may send a reply (and the reply's receiver
     a reply to that) before returning. current_load and the data actually carried never exceed the bandwidth."""
-    assume(all_of(bw > 0, s1 >= 0, s2 >= 0, s3 >= 0, s4 >= 0))
+    assume(all_of(bw > 0, s1 >= 0, s2 >= 0, s3 >= 0, s4 >= 0, ex >= 0))
     with concrete():
         sim, a, b, link = _two_hosts()
         na, nb = a.network_interface[1], b.network_interface[1]
     link.bandwidth = bw
     st = {"carried": 0, "max_over": False}
 
-    def after():
+    def after(idle=False):
         check(link.current_load <= link.bandwidth, "link.current_load exceeds link.bandwidth")
         check(st["carried"] <= link.bandwidth, "data carried in this tick exceeds the bandwidth")
+        if idle:  # nothing in flight: the load is exactly what was carried (sizes as transmitted)
+            check(link.current_load == st["carried"], "link.current_load differs from the data carried in this tick")
 
     # plan: frame1 (s1) from A; on delivery, if n1: B replies s2 (nested); on delivery of s2, if n2: A replies s3.
     def recv_b(frame):
         check(link.is_up, "frame delivered over a link that is not up")
+        size_on_wire = frame.size_Mbits
+        frame.set_received_timestamp()  # the real interfaces stamp the frame before deciding whether to accept it
         if frame is f1 and n1:
             nb.send_frame(f2)
             after()
@@ -93,31 +110,33 @@ def link_nested(
             after()
         ok = acc1 if frame is f1 else acc4
         if ok:
-            st["carried"] = st["carried"] + frame.size_Mbits
+            st["carried"] = st["carried"] + size_on_wire
         return ok
 
     def recv_a(frame):
         check(link.is_up, "frame delivered over a link that is not up")
+        size_on_wire = frame.size_Mbits
+        frame.set_received_timestamp()
         if frame is f2 and n2:
             na.send_frame(f3)
             after()
         ok = acc2 if frame is f2 else acc3
         if ok:
-            st["carried"] = st["carried"] + frame.size_Mbits
+            st["carried"] = st["carried"] + size_on_wire
         return ok
 
-    f1, f2, f3, f4, f2b = FakeFrame(s1), FakeFrame(s2), FakeFrame(s3), FakeFrame(s4), FakeFrame(s2)
+    f1, f2, f3, f4, f2b = FakeFrame(s1, ex), FakeFrame(s2, ex), FakeFrame(s3, ex), FakeFrame(s4, ex), FakeFrame(s2, ex)
     object.__setattr__(nb, "receive_frame", recv_b)
     object.__setattr__(na, "receive_frame", recv_a)
     na.send_frame(f1)
-    after()
+    after(idle=True)
     if tick_between:
         sim.pre_timestep(1)
         check(link.current_load == 0, "load not reset at the start of the tick")
         st["carried"] = 0
         cover("tick")
     na.send_frame(f4)
-    after()
+    after(idle=True)
     cover("done")
 
 
